@@ -146,6 +146,22 @@ class Run(object):
                 raise Violation('C19.1', 'buf[%d] reads %r, model says %r' % (a, got, bytes([m[a]])))
             if a < 0:
                 self.out.probe('negative_index_read')
+        elif how == 'compare':
+            # a view compares like the bytes it shows
+            other = bytes(m)
+            if a % 3 == 0 and len(other):
+                k = a % len(other)
+                other = other[:k] + bytes([(other[k] + 128 + b) % 256]) + other[k + 1:]
+            elif a % 3 == 1:
+                other = other[:a % (len(other) + 1)]
+            mine = bytes(m)
+            for name, got, want in (('==', buf == other, mine == other), ('!=', buf != other, mine != other),
+                                    ('<', buf < other, mine < other), ('<=', buf <= other, mine <= other),
+                                    ('>', buf > other, mine > other), ('>=', buf >= other, mine >= other)):
+                if got != want:
+                    raise Violation('C19.1', 'view %r %s %r is %r, the bytes it shows compare as %r'
+                                    % (mine[:8], name, other[:8], got, want))
+            self.out.probe('view_compared_with_bytes')
         else:
             sl = slice(a, b)
             got = buf[sl]
@@ -543,7 +559,9 @@ class C19(core.Check):
             elif n == 'mkbuf':
                 ops.append(['mkbuf', k, rng.weighted([('full', 5), ('partial', 4), ('zero', 1)]), r])
             elif n == 'bread':
-                if rng.chance(0.4):
+                if rng.chance(0.12):
+                    ops.append(['bread', k, 'compare', rng.below(1000), rng.randint(0, 3)])
+                elif rng.chance(0.4):
                     ops.append(['bread', k, 'index', rng.randint(-55, 55), None])
                 else:
                     ops.append(['bread', k, 'slice', rnd_bound(rng, 48), rnd_bound(rng, 48)])
